@@ -176,20 +176,28 @@ func main() {
 	// must be remembered under a name that tells the two triples apart), and the answer computed for the other
 	// password must still be rejected.
 	{
-		g := groups[0]
+		// the group is a fourth and fifth component: generator (3, 4) and prime (Telegram's, RFC 3526 group 14); what a
+		// call leaves behind for a group (parsed prime, k = H(p|g), H(p) xor H(g)) depends on both
+		hgroups := []srpref.Group{{P: hexBig(telegramPrime), G: 3}, {P: hexBig(telegramPrime), G: 4}, {P: hexBig(rfc3526g14), G: 3}, {P: hexBig(rfc3526g14), G: 4}}
 		pws := []string{passwords[0], passwords[1]}
 		s1s := [][]byte{[]byte("saltsalt"), []byte("other-s1")}
 		s2s := [][]byte{[]byte("SALT2xyz"), []byte("other-s2")}
-		type tr struct{ p, a, b int }
+		type tr struct{ p, a, b, g int }
 		var trs []tr
 		for p := 0; p < 2; p++ {
 			for a := 0; a < 2; a++ {
 				for b := 0; b < 2; b++ {
-					trs = append(trs, tr{p, a, b})
+					for g := 0; g < 4; g++ {
+						if g > 0 && !run.Thorough() && p+a+b > 0 {
+							continue // quick: the other groups with the first (password, salt1, salt2) only
+						}
+						trs = append(trs, tr{p, a, b, g})
+					}
 				}
 			}
 		}
 		ask := func(t tr, answerPw string) (bool, string) {
+			g := hgroups[t.g]
 			v := verifier(g, pws[t.p], [2][]byte{s1s[t.a], s2s[t.b]})
 			b := big.NewInt(13)
 			ap := &telegram.AccountPassword{HasPassword: true, SRPID: 77, SRPB: pad256(v.B(b).Bytes()),
@@ -225,10 +233,18 @@ func main() {
 					diff++
 					what = "salt2"
 				}
+				if t1.g&1 != t2.g&1 {
+					diff++
+					what = "generator"
+				}
+				if t1.g>>1 != t2.g>>1 {
+					diff++
+					what = "prime"
+				}
 				if diff != 1 {
 					continue
 				}
-				id := fmt.Sprintf("history p%d/s1.%d/s2.%d then p%d/s1.%d/s2.%d", t1.p, t1.a, t1.b, t2.p, t2.a, t2.b)
+				id := fmt.Sprintf("history p%d/s1.%d/s2.%d/group%d then p%d/s1.%d/s2.%d/group%d", t1.p, t1.a, t1.b, t1.g, t2.p, t2.a, t2.b, t2.g)
 				rep := map[string]any{"case": id}
 				nh++
 				run.Eval(id, true)
@@ -242,9 +258,60 @@ func main() {
 				if ok, _ := ask(t2, pws[1-t2.p]); ok {
 					run.Violation("history|wrong-password-accepted|after-a-call-with-another-"+what, id+": the answer for another password is accepted", rep)
 				}
+				// and back: the first triple once more (what the second call left must not have replaced what the
+				// first one needs under the same name)
+				if ok, why := ask(t1, pws[t1.p]); !ok {
+					run.Violation("history|right-password-rejected|third-call-like-the-first|after-a-call-with-another-"+what, id+", then the first again: rejected "+why, rep)
+				}
 			}
 		}
-		run.Set("two_call_histories", nh)
+		run.Set("call_histories", nh)
+	}
+	// the server's parameters as they arrive: fields of ONE received buffer, each a window with the rest of the
+	// buffer as spare capacity behind it. The answer must verify and the buffer must come back unchanged.
+	{
+		g := groups[0]
+		pw := passwords[1]
+		s := salts[0]
+		v := verifier(g, pw, s)
+		b := big.NewInt(13)
+		fields := map[string][]byte{"salt1": s[0], "salt2": s[1], "p": g.P.Bytes(), "B": pad256(v.B(b).Bytes())}
+		nl := 0
+		for _, order := range [][]string{{"salt1", "salt2", "p", "B"}, {"p", "B", "salt1", "salt2"}, {"B", "p", "salt2", "salt1"}, {"salt2", "salt1", "B", "p"}} {
+			var buf []byte
+			off := map[string][2]int{}
+			for _, f := range order {
+				off[f] = [2]int{len(buf), len(buf) + len(fields[f])}
+				buf = append(buf, fields[f]...)
+			}
+			buf = append(buf, []byte(strings.Repeat("\xa5", 64))...)
+			before := append([]byte{}, buf...)
+			win := func(f string) []byte { return buf[off[f][0]:off[f][1]] } // capacity reaches to the end of buf
+			id := "one-buffer layout " + strings.Join(order, ",")
+			rep := map[string]any{"case": id}
+			nl++
+			run.Eval(id, true)
+			ap := &telegram.AccountPassword{HasPassword: true, SRPID: 77, SRPB: win("B"),
+				CurrentAlgo: &telegram.PasswordKdfAlgoSHA256SHA256PBKDF2HMACSHA512iter100000SHA256ModPow{Salt1: win("salt1"), Salt2: win("salt2"), G: int32(g.G), P: win("p")}}
+			var res telegram.InputCheckPasswordSRP
+			var err error
+			if pn, pm, fr := vr.Try(func() { res, err = callWithA(pw, ap, pad256(big.NewInt(11).Bytes())) }); pn {
+				run.Violation("one-buffer|panic|"+vr.MsgClass(pm)+"|"+fr, id+": "+pm, rep)
+				continue
+			}
+			o, ok := res.(*telegram.InputCheckPasswordSRPObj)
+			if err != nil || !ok {
+				run.Violation("one-buffer|error", fmt.Sprintf("%s: %T, %v", id, res, err), rep)
+				continue
+			}
+			if !v.Check(o.A, o.M1, b) {
+				run.Violation("one-buffer|right-password-rejected", id+": the reference verifier rejects the answer computed for the right password when the parameters are windows of one buffer", rep)
+			}
+			if string(before) != string(buf) {
+				run.Violation("one-buffer|parameters-modified", id+": the received parameters were written to by the call", rep)
+			}
+		}
+		run.Set("one_buffer_layouts", nl)
 	}
 	// bad B, empty password
 	g := groups[0]
